@@ -136,6 +136,11 @@ func (s *TermStore) mk(op Op, w int, k uint64, name string, args ...*Term) *Term
 	if op == OpUF {
 		t.multi, t.sv = true, nil
 	}
+	if op == OpSelect && t.multi && args[0].W <= 8 {
+		// the index term becomes an opaque atom: everything computed from this
+		// select and constants is a function of that one narrow value
+		t.multi, t.sv = false, args[0]
+	}
 	s.tab[key] = t
 	s.all = append(s.all, t)
 	if r := s.tabulate(t); r != nil {
@@ -151,10 +156,13 @@ func (s *TermStore) mk(op Op, w int, k uint64, name string, args ...*Term) *Term
 // case-folding and decoding logic into one select, which both decides many
 // conditions syntactically and keeps solver queries small.
 func (s *TermStore) tabulate(t *Term) *Term {
-	if s.NoTabulate || t.sv == nil || t.sv.W > 8 || t.Op == OpVar || t.Op == OpConst || t.size < 4 {
+	if s.NoTabulate || t.sv == nil || t.sv.W > 8 || t.Op == OpVar || t.Op == OpConst || t.size-t.sv.size < 3 {
 		return nil
 	}
 	v := t.sv
+	if t == v {
+		return nil
+	}
 	// canonical forms are left alone
 	if t.Op == OpSelect && t.Args[0] == v {
 		return nil
@@ -164,10 +172,8 @@ func (s *TermStore) tabulate(t *Term) *Term {
 	}
 	n := 1 << uint(v.W)
 	vals := make([]uint64, n)
-	env := map[string]uint64{}
 	for x := 0; x < n; x++ {
-		env[v.Name] = uint64(x)
-		vals[x] = s.Eval(t, env, nil)
+		vals[x] = s.EvalLeaf(t, nil, nil, v, uint64(x))
 	}
 	if t.W == 0 {
 		allT, allF := true, true
@@ -1010,11 +1016,20 @@ func (s *TermStore) VarsOf(t *Term) []int {
 // concrete evaluation (used for witness replay inside the engine)
 
 func (s *TermStore) Eval(t *Term, env map[string]uint64, ufEval func(name string, args []uint64) (uint64, bool)) uint64 {
+	return s.EvalLeaf(t, env, ufEval, nil, 0)
+}
+
+// EvalLeaf evaluates t, treating the term leaf (if non-nil) as an opaque atom
+// with the given value.
+func (s *TermStore) EvalLeaf(t *Term, env map[string]uint64, ufEval func(name string, args []uint64) (uint64, bool), leaf *Term, leafVal uint64) uint64 {
 	memo := map[int]uint64{}
 	var ev func(t *Term) uint64
 	ev = func(t *Term) uint64 {
 		if t.Op == OpConst {
 			return t.K
+		}
+		if t == leaf {
+			return leafVal
 		}
 		if v, ok := memo[t.ID]; ok {
 			return v
